@@ -37,6 +37,8 @@ C0(op, si) == [op |-> op, si |-> si, code |-> "", val |-> "", id |-> "", kind |-
                cnt |-> "", recv |-> 0, rpos |-> 0, rsub |-> 0, apos |-> 0, info |-> <<>>]
 HRec(k, id, cnt, sid, a, b, c, d, e) == [k |-> k, id |-> id, cnt |-> cnt, n |-> "", p |-> "", sid |-> sid, a |-> a, b |-> b, c |-> c, d |-> d, e |-> e]
 Depth == Len(rd.loops)
+(* the innermost loop open in the reader: 0 none, 1 ISA, 2 GS, 3 ST (loops that lost their trailer stay on the reader's stack below it) *)
+Level == IF rd.loops = <<>> THEN 0 ELSE CASE rd.loops[Len(rd.loops)][1] = "ISA" -> 1 [] rd.loops[Len(rd.loops)][1] = "GS" -> 2 [] OTHER -> 3
 NEle(k) == CASE k = "ISA" -> 16 [] k = "GS" -> 8 [] k = "ST" -> (IF Ver = "5010" THEN 3 ELSE 2) [] k = "B" -> 3 [] OTHER -> 2
 Mark(k) == IF k = "B" THEN <<>> ELSE <<k>>
 ErrCalls(errs, si) == [i \in 1..Len(errs) |-> [C0(errs[i][1] \o "_error", si) EXCEPT !.code = errs[i][2]]]
@@ -44,7 +46,6 @@ AddEleC(si, pos) == [C0("add_ele", si) EXCEPT !.pos = pos, !.ref = "66"]
 EleErrC(si, code, val, rpos, k) == [C0("ele_error", si) EXCEPT !.code = code, !.val = val, !.rpos = rpos, !.y = Mark(k)]
 SegErrC(si, code) == [C0("seg_error", si) EXCEPT !.code = code]
 AddSegC(si, id, pos) == [C0("add_seg", si) EXCEPT !.id = id, !.pos = pos]
-FirstLoop(loops, k) == LET S == {i \in 1..Len(loops) : loops[i][1] = k} IN IF S = {} THEN "" ELSE loops[Min(S)][2]     \* get_gs_id / get_st_id
 (* reader errors raised before _parse_segment (X12Reader.__iter__) *)
 PreErrs(var, si) == (IF var = "blank" THEN <<SegErrC(si, "1")>> ELSE <<>>) \o (IF var = "trail" THEN <<SegErrC(si, "SEG1")>> ELSE <<>>)
 (* node.is_valid(seg, errh) for an envelope segment *)
@@ -69,14 +70,14 @@ BodyCalls(var, val, si, pos) ==
     [] OTHER -> <<>>
 BodySid(var) == IF var = "unknown" THEN "ZZZ" ELSE "REF"
 (* the walker reports a skipped SE when something other than SE ends an open set *)
-SkippedSE(s, si) == IF Depth = 3 /\ s.k \in {"ST", "GE", "GS", "IEA", "ISA"} /\ rd.loops[3][1] = "ST"
+SkippedSE(s, si) == IF Level = 3 /\ s.k \in {"ST", "GE", "GS", "IEA", "ISA"}
                     THEN <<AddSegC(si, "SE", rd.seg_count), SegErrC(si, "3")>> ELSE <<>>
 CallsFor(ev, s, r, si) ==
   LET errs == PreErrs(ev.var, si) \o ErrCalls(r.errs, si)
       vc == ValidCalls(s.k, ev.var, ev.val, si)
   IN CASE s.k = "ISA" -> <<[C0("add_isa", si) EXCEPT !.id = s.id, !.x = s.e, !.info = <<s.a, s.b, s.c, s.d, "U", IF Ver = "5010" THEN "00501" ELSE "00401", "P">>]>> \o errs \o vc
-       [] s.k = "GS"  -> SkippedSE(s, si) \o <<[C0("add_gs", si) EXCEPT !.id = FirstLoop(r.st.loops, "GS"), !.kind = s.a, !.x = s.d, !.info = <<s.b, s.c, s.id, "X">>]>> \o errs \o vc
-       [] s.k = "ST"  -> SkippedSE(s, si) \o <<[C0("add_st", si) EXCEPT !.id = FirstLoop(r.st.loops, "ST"), !.kind = s.a, !.x = s.d]>> \o errs \o vc
+       [] s.k = "GS"  -> SkippedSE(s, si) \o <<[C0("add_gs", si) EXCEPT !.id = s.id, !.kind = s.a, !.x = s.d, !.info = <<s.b, s.c, s.id, "X">>]>> \o errs \o vc
+       [] s.k = "ST"  -> SkippedSE(s, si) \o <<[C0("add_st", si) EXCEPT !.id = s.id, !.kind = s.a, !.x = s.d]>> \o errs \o vc
        [] s.k = "SE"  -> errs \o <<C0("close_st", si)>> \o vc
        [] s.k = "GE"  -> SkippedSE(s, si) \o errs \o <<[C0("close_gs", si) EXCEPT !.cnt = s.cnt, !.recv = r.st.st_count]>> \o vc
        [] s.k = "IEA" -> SkippedSE(s, si) \o errs \o <<C0("close_isa", si)>> \o vc
@@ -104,7 +105,7 @@ Trailer(k, tm) == HRec(k, IF SubSeq(tm, 1, 1) = "r" THEN OpenId(CASE k = "SE" ->
 EnvVal == IF "v" \in Vals THEN "v" ELSE CHOOSE v \in Vals : TRUE
 Ev2(k, var, val) == [k |-> k, var |-> var, val |-> val]
 Candidates ==
-  LET d == Depth
+  LET d == Level
       okIsa == Count("ISA") < MaxIsa /\ (d = 0 \/ Sloppy)
       okGs == d >= 1 /\ CountSince("GS", LastOf("ISA")) < MaxGs /\ (d = 1 \/ Sloppy)
       okSt == d >= 2 /\ CountSince("ST", LastOf("GS")) < MaxSt /\ (d = 2 \/ Sloppy)
@@ -162,23 +163,14 @@ Next == /\ ~done /\ ~t.crashed
            \/ (Len(h) > 0 /\ (Truncate \/ Depth = 0)) /\ Eof
 Spec == Init /\ [][Next]_vars
 
-(* catalogue of the deviations of the code that the models mirror (each is reported on real executions by lib/c05.py, lib/c06.py) *)
-Explained5(f) ==
-  CASE f.c = "verdict_vs_tree" -> f.d1 = "true" /\ f.d2 \in {"seg_error_outside_set_body", "seg_error_at_SE"}
-    [] f.d1 = "truncated" -> f.c \in {"groups_named_in_order", "sets_named_in_order", "set_code", "group_code"} /\ f.d2 = "ele_error_on_ST_SE"
-    [] f.c = "set_code" -> (f.d1 = "A" /\ f.d3 \in {"seg_error_outside_set_body", "ele_error_on_ST_SE", "seg_error_at_SE"})
-    [] f.c = "group_code" -> (f.d1 = "A" /\ f.d3 \in {"seg_error_outside_set_body", "ele_error_on_ST_SE", "seg_error_at_SE", "ele_error_on_GS_GE"})
-    [] f.c = "group_totals" -> (f.d1 = "accepted" /\ f.d3 = "equals_number_of_sets_marked_A") \/ (f.d1 = "received" /\ f.d2 = "false" /\ f.d3 = "zero")
-    [] f.c = "groups_named_in_order" -> f.d3 = "some_group_unclosed"
-    [] f.c = "sets_named_in_order" -> f.d2 = "some_set_unclosed"
-    [] f.c = "itemised_element_error" -> (f.d1 = "element_position" /\ f.d3 = "reported_without_add_ele") \/ (f.d1 \in {"value", "absent"} /\ f.d3 \in {"TERM", "ELE"})
-                                         \/ (f.d1 = "absent" /\ f.d3 = "reported_without_add_ele")
-    [] OTHER -> FALSE
-Explained6(f) ==
-  CASE f.c = "complete" -> f.d1 \in {"ele_error_on_ST_SE", "ele_error_on_ISA_IEA"}
-    [] f.c = "revalidate_selects_ack_map" -> Ver = "4010"
-    [] f.c \in {"se_count", "structure_preserved_by_echo", "reread_clean"} -> f.d1 \in {"TERM", "ELE", "SUB"} \/ f.d3 \in {"TERM", "ELE", "SUB"}
-    [] OTHER -> FALSE
+(* catalogue of the deviations of the code that the models still mirror (each is reported on real executions by lib/c05.py, lib/c06.py);
+   AllExplained is a hard invariant: any other disagreement between the models and the definition is a modelling error *)
+Explained5(f) ==      \* a group that lost its GE reports AK903 = 0 (st_count_recv is only set by err_gs.close; pinned by the fixture 837miss)
+  \/ f.c = "group_totals" /\ f.d1 = "received" /\ f.d2 = "false" /\ f.d3 = "zero"
+  \* cur_st_node survives add_gs_loop: while a set of an EARLIER group is still unclosed (its SE never came), a segment-level error reported in a
+  \* later group outside a set body is kept on that stale set instead of the group it was reported in
+  \/ f.c = "group_code" /\ f.d1 = "A" /\ f.d3 = "seg_error_outside_set_body_after_unclosed_set"
+Explained6(f) == FALSE
 Judged == done /\ res.judged /\ res.hasgroup /\ ~res.crashed
 Bad5 == {f \in res.f5 : ~Explained5(f)}
 Bad6 == {f \in res.f6 : ~Explained6(f)}
